@@ -154,4 +154,354 @@ theorem verifySigned_ok {κ σ : Type} [BEq κ] [LawfulBEq κ] (thr : Int → In
             obtain ⟨h1, h2, _⟩ := checkSigners_true tracked bks [] hc
             exact ⟨kh, tracked, by first | exact hk | rfl, by first | exact hp | rfl, ht, h2, h1, verifyMulti_all des ver bks sigs hv⟩
 
+/-! ### key heights -/
+
+theorem insertDesc_cons (h a : Nat) (l : List Nat) :
+    insertDesc h (a :: l) = if a ≥ h then a :: insertDesc h l else h :: a :: l := by
+  unfold insertDesc
+  by_cases hc : a ≥ h <;> simp [List.takeWhile, List.dropWhile, hc]
+
+theorem mem_insertDesc (h x : Nat) (l : List Nat) : x ∈ insertDesc h l ↔ x = h ∨ x ∈ l := by
+  induction l with
+  | nil => simp [insertDesc]
+  | cons a l ih =>
+    rw [insertDesc_cons]
+    by_cases hc : a ≥ h
+    · rw [if_pos hc]
+      simp only [List.mem_cons, ih]
+      grind
+    · rw [if_neg hc]
+      simp only [List.mem_cons]
+
+theorem insertDesc_sorted (h : Nat) (l : List Nat) (hs : l.Pairwise (· ≥ ·)) :
+    (insertDesc h l).Pairwise (· ≥ ·) := by
+  induction l with
+  | nil => simp [insertDesc]
+  | cons a l ih =>
+    rw [insertDesc_cons]
+    have ⟨ha, hl⟩ := List.pairwise_cons.mp hs
+    by_cases hc : a ≥ h
+    · rw [if_pos hc]
+      refine List.pairwise_cons.mpr ⟨?_, ih hl⟩
+      intro x hx
+      rcases (mem_insertDesc h x l).mp hx with rfl | hx
+      · exact hc
+      · exact ha x hx
+    · rw [if_neg hc]
+      refine List.pairwise_cons.mpr ⟨?_, hs⟩
+      intro x hx
+      rcases List.mem_cons.mp hx with rfl | hx
+      · omega
+      · have := ha x hx; omega
+
+/-- `FindKeyHeight` on a list sorted big-to-small returns the greatest key height strictly below `h`. -/
+theorem findKeyHeight_some (khs : List Nat) (hs : khs.Pairwise (· ≥ ·)) (h kh : Nat)
+    (hf : findKeyHeight khs h = some kh) :
+    kh ∈ khs ∧ kh < h ∧ ∀ v ∈ khs, v < h → v ≤ kh := by
+  unfold findKeyHeight at hf
+  obtain ⟨hp, as, bs, rfl, hnot⟩ := List.find?_eq_some_iff_append.mp hf
+  simp only [decide_eq_true_eq] at hp
+  refine ⟨by simp, hp, ?_⟩
+  intro v hv hvh
+  rcases List.mem_append.mp hv with hv | hv
+  · have := hnot v hv
+    simp at this
+    omega
+  · rcases List.mem_cons.mp hv with rfl | hv
+    · exact Nat.le_refl _
+    · have h2 := (List.pairwise_append.mp hs).2.1
+      exact (List.pairwise_cons.mp h2).1 v hv
+
+theorem findKeyHeight_none (khs : List Nat) (h : Nat) (hf : findKeyHeight khs h = none) :
+    ∀ v ∈ khs, ¬ v < h := by
+  unfold findKeyHeight at hf
+  intro v hv
+  have := List.find?_eq_none.mp hf v hv
+  simpa using this
+
+/-! ### peer sets -/
+
+theorem mem_dedupKeys {κ : Type} [BEq κ] [LawfulBEq κ] (x : κ) (l : List κ) : x ∈ dedupKeys l ↔ x ∈ l := by
+  induction l with
+  | nil => simp [dedupKeys]
+  | cons a l ih =>
+    simp only [dedupKeys]
+    by_cases hc : l.contains a
+    · rw [if_pos hc, ih, List.mem_cons]
+      constructor
+      · exact Or.inr
+      · rintro (rfl | h)
+        · simpa using hc
+        · exact h
+    · rw [if_neg hc, List.mem_cons, List.mem_cons, ih]
+
+theorem dedupKeys_nodup {κ : Type} [BEq κ] [LawfulBEq κ] (l : List κ) : (dedupKeys l).Nodup := by
+  induction l with
+  | nil => simp [dedupKeys]
+  | cons a l ih =>
+    simp only [dedupKeys]
+    by_cases hc : l.contains a
+    · rw [if_pos hc]; exact ih
+    · rw [if_neg hc]
+      refine List.nodup_cons.mpr ⟨?_, ih⟩
+      rw [mem_dedupKeys]
+      simpa using hc
+
+
+theorem peersAt_cons {κ : Type} (h kh : Nat) (ps : List κ) (rest : List (Nat × List κ)) :
+    peersAt ((h, ps) :: rest) kh = if h = kh then some ps else peersAt rest kh := by
+  unfold peersAt
+  by_cases hc : h = kh
+  · simp [List.find?, hc]
+  · have : (h == kh) = false := by simpa using hc
+    simp [List.find?, this, hc]
+
+theorem peersAt_mem {κ : Type} (ps : List (Nat × List κ)) (kh : Nat) (t : List κ)
+    (h : peersAt ps kh = some t) : (kh, t) ∈ ps := by
+  induction ps with
+  | nil => simp [peersAt] at h
+  | cons e rest ih =>
+    obtain ⟨eh, eps⟩ := e
+    rw [peersAt_cons] at h
+    by_cases hc : eh = kh
+    · rw [if_pos hc] at h
+      cases h; subst hc; exact List.mem_cons_self
+    · rw [if_neg hc] at h
+      exact List.mem_cons_of_mem _ (ih h)
+
+/-! ### state invariant -/
+
+structure Inv {κ : Type} (st : St κ) : Prop where
+  sorted : st.keyHeights.Pairwise (· ≥ ·)
+  has : ∀ kh ∈ st.keyHeights, ∃ ps, peersAt st.peers kh = some ps
+  nodup : ∀ e ∈ st.peers, e.2.Nodup
+
+theorem inv_empty {κ : Type} : Inv (St.empty : St κ) :=
+  ⟨List.Pairwise.nil, fun kh h => by simp [St.empty] at h, fun e h => by simp [St.empty] at h⟩
+
+theorem inv_updatePeers {κ : Type} [BEq κ] [LawfulBEq κ] (st : St κ) (h : Nat) (cfg : Cfg κ) (hi : Inv st) :
+    Inv (updatePeers st h cfg).1 := by
+  cases cfg with
+  | none => exact hi
+  | bad => exact hi
+  | peers ps =>
+    refine ⟨insertDesc_sorted h _ hi.sorted, ?_, ?_⟩
+    · intro kh hk
+      show ∃ p, peersAt ((h, dedupKeys ps) :: st.peers) kh = some p
+      rw [peersAt_cons]
+      by_cases hc : h = kh
+      · exact ⟨_, by rw [if_pos hc]⟩
+      · rw [if_neg hc]
+        rcases (mem_insertDesc h kh _).mp hk with rfl | hk
+        · exact absurd rfl hc
+        · exact hi.has kh hk
+    · intro e he
+      rcases List.mem_cons.mp he with rfl | he
+      · exact dedupKeys_nodup ps
+      · exact hi.nodup e he
+
+theorem inv_hdrs {κ : Type} (st : St κ) (l : List Nat) (hi : Inv st) : Inv { st with hdrs := l } :=
+  ⟨hi.sorted, hi.has, hi.nodup⟩
+
+theorem inv_msgs {κ : Type} (st : St κ) (l : List Nat) (hi : Inv st) : Inv { st with msgs := l } :=
+  ⟨hi.sorted, hi.has, hi.nodup⟩
+
+theorem inv_apply {κ σ : Type} [BEq κ] [LawfulBEq κ] (des : σ → Bool) (st : St κ) (o : Op κ σ) (hi : Inv st) :
+    Inv (apply des st o).1 := by
+  cases o with
+  | genesis h cfg => exact inv_updatePeers _ h cfg (inv_hdrs st _ hi)
+  | hdr h cfg bks sigs ver =>
+    simp only [apply, syncHeader]
+    split
+    · exact hi
+    · split
+      · exact hi
+      · exact inv_updatePeers _ h cfg (inv_hdrs st _ hi)
+  | msg h bks sigs ver =>
+    simp only [apply, syncMsg]
+    split
+    · exact hi
+    · split
+      · exact hi
+      · exact inv_msgs st _ hi
+  | dep h bks sigs ver =>
+    simp only [apply, depositMsg]
+    split
+    · exact hi
+    · split
+      · exact hi
+      · exact inv_msgs st _ hi
+
+theorem inv_run {κ σ : Type} [BEq κ] [LawfulBEq κ] (des : σ → Bool) (ops : List (Op κ σ)) :
+    ∀ st : St κ, Inv st → Inv (run des st ops) := by
+  induction ops with
+  | nil => intro st hi; exact hi
+  | cons o os ih => intro st hi; exact ih _ (inv_apply des st o hi)
+
+/-! ### histories -/
+
+theorem run_append {κ σ : Type} [BEq κ] (des : σ → Bool) (a b : List (Op κ σ)) (st : St κ) :
+    run des st (a ++ b) = run des (run des st a) b := by
+  induction a generalizing st with
+  | nil => rfl
+  | cons o os ih => simp [run, ih]
+
+/-- Whatever a run adds to a projection of the state was added by one of its operations, in the state that
+operation met. -/
+theorem run_trace {κ σ α : Type} [BEq κ] (des : σ → Bool) (proj : St κ → List α) (P : St κ → Op κ σ → α → Prop)
+    (hstep : ∀ st o x, x ∈ proj (apply des st o).1 → x ∈ proj st ∨ P st o x) :
+    ∀ (ops : List (Op κ σ)) (st0 : St κ) (x : α), x ∈ proj (run des st0 ops) →
+      x ∈ proj st0 ∨ ∃ pre o post, ops = pre ++ o :: post ∧ P (run des st0 pre) o x := by
+  intro ops
+  induction ops with
+  | nil => intro st0 x hx; exact Or.inl hx
+  | cons o os ih =>
+    intro st0 x hx
+    rcases ih (apply des st0 o).1 x hx with h | ⟨pre, o', post, rfl, hp⟩
+    · rcases hstep st0 o x h with h | h
+      · exact Or.inl h
+      · exact Or.inr ⟨[], o, os, rfl, h⟩
+    · exact Or.inr ⟨o :: pre, o', post, rfl, hp⟩
+
+/-- what one operation may add to the stored cross-chain messages -/
+def MsgStep {κ σ : Type} [BEq κ] (des : σ → Bool) (st : St κ) (o : Op κ σ) (h : Nat) : Prop :=
+  match o with
+  | .msg h' bks sigs ver => h = h' ∧ verifyMsg des ver st h' bks sigs = .ok ()
+  | .dep h' bks sigs ver => h = h' ∧ verifyMsg des ver st h' bks sigs = .ok ()
+  | _ => False
+
+theorem updatePeers_msgs {κ : Type} [BEq κ] (st : St κ) (h : Nat) (cfg : Cfg κ) :
+    (updatePeers st h cfg).1.msgs = st.msgs := by
+  cases cfg <;> rfl
+
+theorem updatePeers_hdrs {κ : Type} [BEq κ] (st : St κ) (h : Nat) (cfg : Cfg κ) :
+    (updatePeers st h cfg).1.hdrs = st.hdrs := by
+  cases cfg <;> rfl
+
+theorem msg_step {κ σ : Type} [BEq κ] (des : σ → Bool) (st : St κ) (o : Op κ σ) (h : Nat)
+    (hm : h ∈ (apply des st o).1.msgs) : h ∈ st.msgs ∨ MsgStep des st o h := by
+  cases o with
+  | genesis h' cfg =>
+    left
+    simpa [apply, genesis, updatePeers_msgs] using hm
+  | hdr h' cfg bks sigs ver =>
+    left
+    simp only [apply, syncHeader] at hm
+    split at hm
+    · exact hm
+    · split at hm
+      · exact hm
+      · simpa [updatePeers_msgs] using hm
+  | msg h' bks sigs ver =>
+    simp only [apply, syncMsg] at hm
+    split at hm
+    · exact Or.inl hm
+    · split at hm
+      · exact Or.inl hm
+      · rename_i hv
+        rcases List.mem_cons.mp hm with rfl | hm
+        · exact Or.inr ⟨rfl, by cases hv' : verifyMsg des ver st h bks sigs <;> simp_all⟩
+        · exact Or.inl hm
+  | dep h' bks sigs ver =>
+    simp only [apply, depositMsg] at hm
+    split at hm
+    · exact Or.inl hm
+    · split at hm
+      · exact Or.inl hm
+      · rename_i hv
+        rcases List.mem_cons.mp hm with rfl | hm
+        · exact Or.inr ⟨rfl, by cases hv' : verifyMsg des ver st h bks sigs <;> simp_all⟩
+        · exact Or.inl hm
+
+/-- what one operation may add to the stored headers -/
+def HdrStep {κ σ : Type} [BEq κ] (des : σ → Bool) (st : St κ) (o : Op κ σ) (h : Nat) : Prop :=
+  match o with
+  | .genesis h' _ => h = h'
+  | .hdr h' _ bks sigs ver => h = h' ∧ verifyHeader des ver st h' bks sigs = .ok ()
+  | _ => False
+
+theorem hdr_step {κ σ : Type} [BEq κ] (des : σ → Bool) (st : St κ) (o : Op κ σ) (h : Nat)
+    (hm : h ∈ (apply des st o).1.hdrs) : h ∈ st.hdrs ∨ HdrStep des st o h := by
+  cases o with
+  | genesis h' cfg =>
+    simp only [apply, genesis, updatePeers_hdrs] at hm
+    rcases List.mem_cons.mp hm with rfl | hm
+    · exact Or.inr rfl
+    · exact Or.inl hm
+  | hdr h' cfg bks sigs ver =>
+    simp only [apply, syncHeader] at hm
+    split at hm
+    · exact Or.inl hm
+    · split at hm
+      · exact Or.inl hm
+      · rename_i hv
+        rw [updatePeers_hdrs] at hm
+        rcases List.mem_cons.mp hm with rfl | hm
+        · exact Or.inr ⟨rfl, by cases hv' : verifyHeader des ver st h bks sigs <;> simp_all⟩
+        · exact Or.inl hm
+  | msg h' bks sigs ver =>
+    left
+    simp only [apply, syncMsg] at hm
+    split at hm
+    · exact hm
+    · split at hm <;> exact hm
+  | dep h' bks sigs ver =>
+    left
+    simp only [apply, depositMsg] at hm
+    split at hm
+    · exact hm
+    · split at hm <;> exact hm
+
+/-- what one operation may add to the recorded peer sets -/
+def PeerStep {κ σ : Type} [BEq κ] (des : σ → Bool) (st : St κ) (o : Op κ σ) (e : Nat × List κ) : Prop :=
+  match o with
+  | .genesis h (.peers ps) => e = (h, dedupKeys ps)
+  | .hdr h (.peers ps) bks sigs ver =>
+    e = (h, dedupKeys ps) ∧ verifyHeader des ver st h bks sigs = .ok () ∧ st.hdrs.contains h = false
+  | _ => False
+
+theorem updatePeers_peers {κ : Type} [BEq κ] (st : St κ) (h : Nat) (cfg : Cfg κ) (e : Nat × List κ)
+    (he : e ∈ (updatePeers st h cfg).1.peers) :
+    e ∈ st.peers ∨ ∃ ps, cfg = .peers ps ∧ e = (h, dedupKeys ps) := by
+  cases cfg with
+  | none => exact Or.inl he
+  | bad => exact Or.inl he
+  | peers ps =>
+    rcases List.mem_cons.mp he with rfl | he
+    · exact Or.inr ⟨ps, rfl, rfl⟩
+    · exact Or.inl he
+
+theorem peer_step {κ σ : Type} [BEq κ] (des : σ → Bool) (st : St κ) (o : Op κ σ) (e : Nat × List κ)
+    (hm : e ∈ (apply des st o).1.peers) : e ∈ st.peers ∨ PeerStep des st o e := by
+  cases o with
+  | genesis h' cfg =>
+    simp only [apply, genesis] at hm
+    rcases updatePeers_peers _ h' cfg e hm with h | ⟨ps, rfl, rfl⟩
+    · exact Or.inl h
+    · exact Or.inr rfl
+  | hdr h' cfg bks sigs ver =>
+    simp only [apply, syncHeader] at hm
+    split at hm
+    · exact Or.inl hm
+    · rename_i hc
+      split at hm
+      · exact Or.inl hm
+      · rename_i hv
+        rcases updatePeers_peers _ h' cfg e hm with h | ⟨ps, rfl, rfl⟩
+        · exact Or.inl h
+        · refine Or.inr ⟨rfl, ?_, by simpa using hc⟩
+          cases hv' : verifyHeader des ver st h' bks sigs <;> simp_all
+  | msg h' bks sigs ver =>
+    left
+    simp only [apply, syncMsg] at hm
+    split at hm
+    · exact hm
+    · split at hm <;> exact hm
+  | dep h' bks sigs ver =>
+    left
+    simp only [apply, depositMsg] at hm
+    split at hm
+    · exact hm
+    · split at hm <;> exact hm
+
 end Poly.Proofs.LCOnt
